@@ -255,7 +255,7 @@ def h_bane_compressed():
 
         def compress(datafile, factor, outfile=None):
             hd = datafile[0].header
-            calls.append((dict(hd), datafile[0].data, outfile))
+            calls.append((dict(hd), datafile[0].data, outfile, factor))
             # what the real compress does to the header it is given (C15 K-bookkeeping decides the real one)
             hd['CRPIX1'] = (hd['CRPIX1'] - 1) / factor + 1
             hd['CRPIX2'] = (hd['CRPIX2'] - 1) / factor + 1
@@ -280,12 +280,32 @@ def h_bane_compressed():
             return dict(slice=text[:500])
         L = core.lift
         for k, nm in ((0, 'bkg'), (1, 'rms')):
-            hd, data, out = calls[k]
+            hd, data, out, factor_ = calls[k]
+            c.oblige(tag + ':%s map decimated by the grid step' % nm, L(factor_) == L(integer('grid')))
             c.oblige(tag + ':%s map compressed from the image header itself (not one already rescaled)' % nm,
                      z3.And([L(hd[q]) == L(orig[q]) for q in ('CRPIX1', 'CRPIX2', 'CDELT1', 'CDELT2')] + [z3.BoolVal('BN_CFAC' not in hd)]))
             c.oblige(tag + ':%s data and file name' % nm, z3.BoolVal(isinstance(data, tuple) and data[0] == nm and out == 'o_%s.fits' % nm))
         c.oblige(tag + ":the caller's header is left alone", z3.And([L(header[q]) == L(orig[q]) for q in ('CRPIX1', 'CRPIX2', 'CDELT1', 'CDELT2')]))
         return dict(slice=text[:500])
+    return h
+
+
+def h_bane_grid():
+    """the grid the maps are computed on, when the output is to be compressed: compress() decimates both axes by ONE factor (the
+    first step), so the grid has to be square by the time the maps are made - for every requested grid"""
+    def h(c):
+        fac, text = slicer.slice_function(FB, 'filter_image', targets=['step_size'], params=['step_size', 'box_size', 'compressed', 'header'], returns=['step_size'], closure=False)
+        gx, gy = integer('gridx'), integer('gridy')
+        c.assume(gx.e >= 1)
+        c.assume(gy.e >= 1)
+        f = fac(dict(core.BUILTINS, logging=loader.NullLog(), np=loader.NPProxy()))
+        (ss,) = f((gx, gy), None, True, {})
+        L = core.lift
+        c.oblige('filter_image compressed output:maps are computed on a square grid (both axes are decimated by step_size[0])', L(ss[0]) == L(ss[1]))
+        c.oblige('filter_image compressed output:the grid is not made coarser than requested', z3.And(L(ss[0]) <= gx.e, L(ss[1]) <= gy.e, L(ss[0]) >= 1))
+        (ss2,) = f((gx, gy), None, False, {})
+        c.oblige('filter_image:the requested grid is kept when the output is not compressed', z3.And(L(ss2[0]) == gx.e, L(ss2[1]) == gy.e))
+        return dict(slice=text[:400])
     return h
 
 
@@ -428,7 +448,10 @@ def run(rep):
                stubs=['compress -> recorder that edits the header it is given in place, as the real one does', 'astropy HDU objects -> records'],
                assumes=['slice: statements assigning hdu / hdulist / their header and data, and the compress calls (with their enclosing if)'])
     try:
+        st0, res0 = explore(h_bane_grid(), wall_s=120)
         st, res = explore(h_bane_compressed())
+        rep.stats(st0)
+        res = list(res0) + list(res)
         rep.stats(st)
         for r in res:
             for ob in r['obligations']:
